@@ -611,6 +611,9 @@ func c31ServeX(c *vcommon.Case, w *c31World, q c31Req, svc *SyncService, who pee
 	if flt != nil {
 		// the served response must survive its own wire format
 		c31CheckWire(c, resp, wit)
+	} else {
+		// ... and so must every fault-free served response (zz_verif_c31_wire_test.go)
+		c31CheckWireFaultFree(c, q, resp, wit)
 	}
 
 	effNum := q.num // by-number start after the documented clamping of a descending start to the best block
@@ -1072,4 +1075,9 @@ func TestVerifC31(t *testing.T) {
 		}
 		c.Count("rate_limit_reports", nw.reports)
 	})
+
+	// ---- the production planner: FullSyncStrategy.NextActions (zz_verif_c31_planner_test.go)
+	c31PlannerGroups(t, r)
+	// ---- floors of the fault-free wire round trip (zz_verif_c31_wire_test.go)
+	c31WireFloors(r)
 }
